@@ -83,6 +83,82 @@ class ExcHandle:
     """What ``except X as e`` binds for native exceptions created with symbolic arguments."""
 
 
+class GenKill(BaseException):
+    """Unwinds the producer thread of a generator that is abandoned by its consumer."""
+
+
+class LazyGen:
+    """A generator object of an interpreted generator function.
+
+    Python generators are lazy and their side effects interleave with the consumer's; the interpreter is a recursive evaluator, so the
+    producer runs in its own thread that strictly alternates with the consumer (never concurrently): `next()` resumes it up to the next yield."""
+
+    def __init__(self, it, f, env):
+        import threading
+
+        self.it, self.f, self.env = it, f, env
+        self.thread = None
+        self.resume_evt, self.yield_evt = threading.Event(), threading.Event()
+        self.value, self.exc, self.finished, self.done, self.killed = None, None, False, False, False
+        self.produced = []
+        it.live_gens.append(self)
+
+    def __iter__(self):
+        return self
+
+    def __next__(self):
+        import threading
+
+        if self.done:
+            raise StopIteration
+        if self.thread is None:
+            self.thread = threading.Thread(target=self._run, daemon=True)
+            self.thread.start()
+        else:
+            self.resume_evt.set()
+        self.yield_evt.wait()
+        self.yield_evt.clear()
+        if self.exc is not None:
+            self.done = True
+            e, self.exc = self.exc, None
+            if isinstance(e, PyRaise):
+                e.partial_yield = list(self.produced)
+            raise e
+        if self.finished:
+            self.done = True
+            raise StopIteration
+        self.produced.append(self.value)
+        return self.value
+
+    def _run(self):
+        import sys
+
+        sys.setrecursionlimit(20000)
+        try:
+            self.it.block(self.f.node.body, self.env, self.f.mod)
+        except (ReturnSignal, GenKill):
+            pass
+        except BaseException as e:  # PyRaise / Unsupported / PathEnd travel to the consumer
+            self.exc = e
+        self.finished = True
+        self.yield_evt.set()
+
+    def emit(self, v):
+        self.value = v
+        self.yield_evt.set()
+        self.resume_evt.wait()
+        self.resume_evt.clear()
+        if self.killed:
+            raise GenKill()
+
+    def close(self):
+        if self.thread is not None and self.thread.is_alive() and not self.finished:
+            self.killed = True
+            self.resume_evt.set()
+            self.thread.join(5)
+        self.done = True
+
+
 class PathResult:
     def __init__(self, pc, kind, value, events, writes, approx=()):
         self.pc, self.kind, self.value, self.events, self.writes, self.approx = pc, kind, value, events, writes, list(approx)
@@ -108,6 +184,7 @@ class Interp:
         self.stack = []
         self.trace_calls = False
         self.approx = []  # over-approximations used on the current path (uninterpreted string functions, opaque results)
+        self.live_gens = []
         from .models import install_all
 
         install_all(self)
@@ -129,6 +206,10 @@ class Interp:
                 results.append(PathResult(list(self.pc), "raise", e.exc, list(self.events), list(self.writes), self.approx))
             except PathEnd:
                 continue
+            finally:
+                for g in self.live_gens:
+                    g.close()
+                self.live_gens = []
         return results
 
     def branch(self, cond):
@@ -197,6 +278,11 @@ class Interp:
                 return py(v)
         self.pc.append(eq(vals[-1]))
         return py(vals[-1])
+
+    def require(self, cond, exc):
+        """Builtin precondition: the path on which it fails raises ``exc`` (a native exception instance)."""
+        if not self.branch(cond):
+            raise PyRaise(exc)
 
     def event(self, *e):
         self.events.append(e + (self.stack[-1] if self.stack else None,))
@@ -478,9 +564,18 @@ class Interp:
                 return self.contains(self.iterate(container), item)
             raise PyRaise(TypeError(f"argument of type '{container.cls.name}' is not iterable"))
         if isinstance(container, Opaque) or (isinstance(item, Opaque) and not isinstance(container, (list, tuple, set, frozenset, dict))):
-            return Opaque("cmp", py_cmp(z3.StringVal("In"), self.pyval(item), self.pyval(container)))
+            # `in` always yields a bool (PySequence_Contains): an uninterpreted predicate, not an arbitrary object
+            return SBool(py_truth(py_cmp(z3.StringVal("In"), self.pyval(item), self.pyval(container))))
+        if isinstance(container, dict) and isinstance(item, PObj) and not item.has_base:
+            self.hash_(item)
+            return self.find_key(container, item) is not PClass.MISSING
         if isinstance(container, (set, frozenset, dict, collections.abc.KeysView, collections.ChainMap)):
             self.hash_(item)
+        if isinstance(container, LazyGen):
+            for x in container:  # membership in an iterator: elements are produced (and compared) one at a time
+                if x is item or self.truth(self.compare("Eq", x, item)):
+                    return True
+            return False
         if isinstance(container, (list, tuple, set, frozenset, dict, collections.abc.KeysView, collections.ChainMap, collections.abc.ValuesView)):
             if self.concrete(item) and self.concrete(list(container)):
                 try:
@@ -532,6 +627,11 @@ class Interp:
                     if r is not NOTIMPL:
                         return r
         ua, ub = self.unbase(a), self.unbase(b)
+        if self.concrete(ua) and self.concrete(ub) and not isinstance(ua, (PObj, PClass)) and not isinstance(ub, (PObj, PClass)):
+            try:
+                return native(ua, ub)
+            except Exception as e:
+                raise PyRaise(e)
         if isinstance(ua, Opaque) or isinstance(ub, Opaque):
             return Opaque("bin", py_bin(z3.StringVal(name), self.pyval(ua), self.pyval(ub)))
         if isinstance(ua, (SBool, bool)) and isinstance(ub, (SBool, bool)) and name in ("BitAnd", "BitOr", "BitXor"):
@@ -552,6 +652,14 @@ class Interp:
                 if name == "FloorDiv":
                     return SInt(z3.If(zb > 0, za / zb, (-za) / (-zb)))
                 return SInt(z3.If(zb > 0, za % zb, -((-za) % (-zb))))
+            if name in ("BitAnd", "BitOr", "BitXor", "LShift", "RShift", "Pow"):
+                f = z3.Function(f"int_{name}", z3.IntSort(), z3.IntSort(), z3.IntSort())  # deterministic, otherwise uninterpreted
+                self.approx.append(f"int {name}")
+                return SInt(f(za, zb))
+            if name == "Div":
+                self.require(zb != 0, ZeroDivisionError("division by zero"))
+                self.approx.append("int /")
+                return Opaque("div", py_bin(z3.StringVal("Div"), py_of_int(za), py_of_int(zb)))
             raise Unsupported(f"symbolic integer operator {name}")
         sa, sb = self.zstr(ua), self.zstr(ub)
         if sa is not None and sb is not None and name == "Add" and isinstance(ua, (str, SStr)) and isinstance(ub, (str, SStr)):
@@ -569,6 +677,8 @@ class Interp:
             if isinstance(v, Opaque):
                 return SBool(z3.Not(py_truth(v.t)))
             return not self.truth(v)
+        if isinstance(v, PObj) and v.has_base and not any(isinstance(v.cls.find(m), PFunc) for m in ("__neg__", "__pos__", "__invert__")):
+            v = v.base
         if self.concrete(v):
             try:
                 return {ast.USub: operator.neg, ast.UAdd: operator.pos, ast.Invert: operator.invert}[type(opnode)](v)
@@ -625,6 +735,8 @@ class Interp:
             if v.has_base:
                 return self.iterate(v.base)
             raise PyRaise(TypeError(f"'{v.cls.name}' object is not iterable"))
+        if isinstance(v, LazyGen):
+            return v
         if isinstance(v, (Sym, SymDict)):
             raise Unsupported(f"iteration over symbolic {v!r}")
         if isinstance(v, (PClass, PFunc, PBound)) or v is None:
@@ -922,17 +1034,9 @@ class Interp:
         if isinstance(f.node, ast.Lambda):
             return self.eval(f.node.body, env, f.mod)
         if has_yield(f.node):
-            out = []
-            env["__yield__"] = out
-            try:
-                self.block(f.node.body, env, f.mod)
-            except ReturnSignal:
-                pass
-            except PyRaise as e:
-                # eager generator: the exception surfaces when the consumer reaches this point; record how far we got
-                e.partial_yield = out
-                raise
-            return out
+            g = LazyGen(self, f, env)
+            env["__yield__"] = g.emit
+            return g
         try:
             self.block(f.node.body, env, f.mod)
         except ReturnSignal as r:
@@ -963,7 +1067,7 @@ class Interp:
                     o.base = Opaque("path")
                     o.base_args = a
             elif o.has_base and isinstance(o.base, list) and args:  # list.__init__(iterable) of a list subclass without __init__
-                o.base[:] = self.iterate(args[0])
+                o.base[:] = list(self.iterate(args[0]))
             elif o.has_base and isinstance(o.base, dict) and (args or kwargs):
                 o.base.update(dict(*[self.unbase(a) for a in args], **kwargs))
         return o
@@ -1211,7 +1315,7 @@ class Interp:
         if isinstance(t, ast.Name):
             self.store_name(t.id, v, env, mod)
         elif isinstance(t, (ast.Tuple, ast.List)):
-            vs = self.iterate(v)
+            vs = list(self.iterate(v))
             star = [i for i, e in enumerate(t.elts) if isinstance(e, ast.Starred)]
             if star:
                 i = star[0]
@@ -1237,6 +1341,18 @@ class Interp:
         else:
             raise Unsupported("assignment target")
 
+    def find_key(self, d, k):
+        """The key of native dict `d` that equals heap object / value `k` (identity first, then ==), or the MISSING marker."""
+        for x in list(d.keys()):
+            if x is k:
+                return x
+        for x in list(d.keys()):
+            if isinstance(x, (PObj, tuple)) or isinstance(k, PObj):
+                if type(x) is type(k) or (isinstance(x, PObj) and isinstance(k, PObj)):
+                    if self.truth(self.compare("Eq", x, k)):
+                        return x
+        return PClass.MISSING
+
     def setitem(self, o, k, v):
         if isinstance(o, SymDict):
             kt = self.dict_key(k)
@@ -1250,6 +1366,11 @@ class Interp:
                 return self.call(PBound(f, o), [k, v], {})
             if o.has_base:
                 return self.setitem(o.base, k, v)
+        if isinstance(o, dict) and isinstance(k, PObj) and not k.has_base:
+            self.hash_(k)
+            x = self.find_key(o, k)
+            o[k if x is PClass.MISSING else x] = v
+            return
         if isinstance(o, (dict, collections.ChainMap)) and not self.concrete(k):
             zk = self.zstr(k)
             if zk is None or not all(self.zstr(x) is not None for x in o.keys()):
@@ -1280,6 +1401,11 @@ class Interp:
                 return r(k)
         if isinstance(o, Sym):
             raise Unsupported(f"subscript of symbolic {o!r}")
+        if isinstance(o, dict) and isinstance(k, PObj) and not k.has_base:
+            x = self.find_key(o, k)
+            if x is PClass.MISSING:
+                raise PyRaise(KeyError(repr(k)))
+            return o[x]
         if not self.concrete(k):
             raise Unsupported("symbolic subscript")
         try:
@@ -1304,7 +1430,7 @@ class Interp:
             out = []
             for x in e.elts:
                 if isinstance(x, ast.Starred):
-                    out += self.iterate(self.eval(x.value, env, mod))
+                    out += list(self.iterate(self.eval(x.value, env, mod)))
                 else:
                     out.append(self.eval(x, env, mod))
             return tuple(out) if T is ast.Tuple else out if T is ast.List else set(out)
@@ -1363,7 +1489,11 @@ class Interp:
             return self.eval_fstring(e, env, mod)
         if T is ast.Yield:
             found, out = env.lookup("__yield__") if isinstance(env, Env) else ("__yield__" in env, env.get("__yield__"))
-            out.append(self.eval(e.value, env, mod) if e.value is not None else None)
+            v = self.eval(e.value, env, mod) if e.value is not None else None
+            if callable(out):
+                out(v)
+            else:
+                out.append(v)
             return None
         if T is ast.Starred:
             raise Unsupported("starred expression outside call/display")
@@ -1381,7 +1511,7 @@ class Interp:
         args, kwargs = [], {}
         for a in e.args:
             if isinstance(a, ast.Starred):
-                args += self.iterate(self.eval(a.value, env, mod))
+                args += list(self.iterate(self.eval(a.value, env, mod)))
             else:
                 args.append(self.eval(a, env, mod))
         for k in e.keywords:
